@@ -63,6 +63,8 @@ var (
 	seqFromFlag   = flag.Int64("seqfrom", 0, "C07: first case ordinal of a (re)started worker")
 	seqSkipFlag   = flag.String("seqskip", "", "C07: comma separated case ordinals a restarted worker must not execute")
 	seqCaseFlag   = flag.String("seqcase", "", "C07: execute the single case with this key (field `case` of a replay) and print its outcome")
+	seqDiscFlag   = flag.String("seqdiscover", "", "C07: discovery child: write the error-handle table to this file (seq_discover.go)")
+	seqDSkipFlag  = flag.String("seqdskip", "", "C07: comma separated constructor calls the discovery child must not execute")
 	seqNWorkers   = flag.Int("seqworkers", 0, "C07: number of sequential workers (default: number of CPUs, at most 16)")
 )
 
@@ -83,7 +85,7 @@ func maybeSeqOnly() {
 	for _, a := range os.Args[1:] {
 		a = strings.TrimLeft(a, "-")
 
-		for _, m := range []string{"seqonly", "seqworker", "seqcase"} {
+		for _, m := range []string{"seqonly", "seqworker", "seqcase", "seqdiscover"} {
 			if a == m || strings.HasPrefix(a, m+"=") {
 				mode = m
 			}
@@ -99,6 +101,9 @@ func maybeSeqOnly() {
 	flag.Parse()
 
 	switch {
+	case *seqDiscFlag != "":
+		verifrt.SetMode(verifrt.ModeSeq)
+		seqDiscoverMain(*tier, *seqDiscFlag, *seqDSkipFlag)
 	case *seqWorkerFlag != "":
 		seqWorker(*tier)
 	case *seqCaseFlag != "":
@@ -681,11 +686,6 @@ func seqParent(tier string, deadline time.Time, withOst bool) (*seqResult, error
 		return nil, err
 	}
 
-	pl, err := buildSeqPlan(tier)
-	if err != nil {
-		return nil, err
-	}
-
 	scratch := os.Getenv("VERIF_SCRATCH")
 	if scratch == "" {
 		scratch = "/dev/shm"
@@ -701,6 +701,21 @@ func seqParent(tier string, deadline time.Time, withOst bool) (*seqResult, error
 	defer os.RemoveAll(dir)
 
 	self, err := os.Executable()
+	if err != nil {
+		return nil, err
+	}
+
+	// the part of plan building that calls the code under test runs in a watched
+	// subprocess; this process and the workers read its table (seq_discover.go)
+	tabFile, discFails, err := discoverErrHandles(self, tier, dir)
+	if err != nil {
+		return nil, err
+	}
+
+	errHandleTableSet = false
+	_ = os.Setenv(errHandleEnv, tabFile)
+
+	pl, err := buildSeqPlan(tier)
 	if err != nil {
 		return nil, err
 	}
@@ -885,6 +900,23 @@ func seqParent(tier string, deadline time.Time, withOst bool) (*seqResult, error
 	}
 
 	res.Viols = viols
+
+	for _, f := range discFails {
+		parts := strings.SplitN(f.Desc, "|", 3)
+		for len(parts) < 3 {
+			parts = append(parts, "")
+		}
+
+		res.Viols = append(res.Viols, seqViol{
+			Ord: -1,
+			Sig: map[string]string{"part": "seq", "kind": strings.ToLower(f.Kind), "type": parts[0], "method": parts[1], "where": "constructor call while discovering handles returned with an error"},
+			Replay: map[string]any{
+				"call": parts[2], "target": parts[0], "outcome": f.Kind,
+				"what":          "the constructor call did not return (HANG: no progress while burning CPU) or killed the process (FATAL) on a fresh instance of the target",
+				"worker_stderr": f.Stderr,
+			},
+		})
+	}
 
 	// every method of the four interfaces must have been called on every
 	// applicable type
